@@ -1,5 +1,6 @@
 import Efp.Theory.Checker
 import Efp.Model.Graph
+import Efp.Proofs.ChainAccepted
 /-!
 # C01 — incremental recomputation equals recomputation from scratch
 
@@ -14,9 +15,15 @@ an accepted chain re-establishes consistency, for every rule system with those r
 check run evaluates `chainOk` on the real graph and the real chain of every input of every explored
 system (`K-graph`; the Lean port `attrUpdatesChain` of the code's algorithm must also return exactly
 the real chain).  Chains the checker rejects are exactly the recorded findings D2/D13 (a job
-reachable from several usage patterns).  The general theorem "the code's algorithm always returns
-an accepted chain on graphs satisfying the invariant" is **not** proved (`attrUpdatesChain_spec` of
-the design); per explored graph the certified checker stands in for it.
+reachable from several usage patterns).
+
+The general theorem is proved too (`Proofs/Chain.lean`, `code_chain_accepted` below): on **every**
+graph without shared ids whose ancestor links are mirrored and which is acyclic within the fuel —
+three executable hypotheses that the check run evaluates on each exported real graph — whenever the
+literal port of `attr_updates_chain` returns, its chain is accepted by the checker, hence
+(`edit_with_code_chain_consistent`) an edit followed by the code's own update order re-establishes
+consistency.  What remains unproved is *termination* (that the port returns on such graphs: D13 is
+a hang of exactly this loop when ids are shared) and link edits; both stay with the oracle.
 -/
 namespace Efp.Props.C01
 open Efp.Theory
@@ -86,6 +93,40 @@ theorem incremental_eq_from_scratch {V : Type} (reads : Nat → List Nat) (calcs
     run S (es.foldl (applyEdit S) σ) full = es.foldl (applyEdit S) σ := by
   have hc := history_consistent reads calcs S hreads hcalc es hok σ h0
   exact run_fixed S _ hc full hfull_inputs
+
+/-- **the code's own update order is accepted by the checker**, for every graph meeting the three
+executable hypotheses, every edited value `u` and every amount of fuel, whenever the algorithm
+returns -/
+theorem code_chain_accepted (g : Efp.Graph.G) (fuel u : Nat) (rk : Array Nat)
+    (hwf : Efp.Graph.wfOk g = true) (hbi : Efp.Graph.ancInChiOk g = true)
+    (hrk : Efp.Graph.rankOk g rk fuel = true) (hu : u < g.size)
+    (calcs : List Nat) (hcalcs : ∀ n ∈ calcs, n < g.size ∧ n ≠ u)
+    (chain : List (Nat × Bool)) (h : Efp.Graph.attrUpdatesChain g fuel u = some chain) :
+    chainOk (fun n => (g.node n).anc) calcs [u] (chain.map Prod.fst) = true :=
+  Efp.Graph.code_chain_accepted g fuel u rk hwf hbi hrk hu calcs hcalcs chain h
+
+/-- **editing an input and recomputing along the code's own chain keeps the model consistent**:
+for every rule system whose read-sets are the recorded ancestors of such a graph -/
+theorem edit_with_code_chain_consistent {V : Type} (g : Efp.Graph.G) (fuel u : Nat) (rk : Array Nat)
+    (hwf : Efp.Graph.wfOk g = true) (hbi : Efp.Graph.ancInChiOk g = true)
+    (hrk : Efp.Graph.rankOk g rk fuel = true) (hu : u < g.size)
+    (calcs : List Nat) (hcalcs : ∀ n ∈ calcs, n < g.size ∧ n ≠ u)
+    (S : RuleSys Nat V) (hreads : ∀ n, S.reads n = (g.node n).anc) (hcalc : ∀ n, S.isCalc n = true → n ∈ calcs)
+    (σ : Nat → V) (h0 : Consistent S σ) (newVal : V)
+    (chain : List (Nat × Bool)) (h : Efp.Graph.attrUpdatesChain g fuel u = some chain) :
+    Consistent S (applyEdit S σ { J := [u], newVals := fun _ => newVal, chain := chain.map Prod.fst }) :=
+  edit_preserves_consistency (fun n => (g.node n).anc) calcs S hreads hcalc σ h0 _
+    (code_chain_accepted g fuel u rk hwf hbi hrk hu calcs hcalcs chain h)
+
+/-! non-vacuity of the hypotheses: input 0 → 1 → 3, 0 → 2 → 3 (a diamond); the port returns [1, 2, 3] -/
+def demoG : Efp.Graph.G := #[
+  { uid := 0, sid := 0, inDict := false, anc := [], chi := [1, 2] },
+  { uid := 1, sid := 1, inDict := false, anc := [0], chi := [3], isCalc := true },
+  { uid := 2, sid := 2, inDict := false, anc := [0], chi := [3], isCalc := true },
+  { uid := 3, sid := 3, inDict := false, anc := [1, 2], chi := [], isCalc := true }]
+example : Efp.Graph.wfOk demoG = true ∧ Efp.Graph.ancInChiOk demoG = true ∧
+    Efp.Graph.rankOk demoG #[0, 1, 1, 2] 10 = true := by decide +kernel
+example : (Efp.Graph.attrUpdatesChain demoG 10 0).map (·.map Prod.fst) = some [1, 2, 3] := by decide +kernel
 
 /-! ## non-vacuity: a three-node system  input 0 → 1 → 2  -/
 def demoReads : Nat → List Nat
